@@ -304,6 +304,8 @@ def stepOp (st : St) (toks : List String) : St :=
       | some f =>
         let rl := st.implRl
         let st := { st with fresh := st.fresh.set! r none, snaps := st.snaps.set! r (some io), dirty := st.dirty.set! r false }
+        let st := if f.loc == some { host := ofString "core", port := 0 } || sourceMetaOk io f.src then st
+                  else judgeFail st s!"metadata-not-from-source r{r} src={fmtAddr f.src} obs[{fmtObs io}]"
         let st := match f.built.bind (fun i => st.builts[i]?) with
           | some (sl, hs) =>
             if Gen.C01Ssdp.ssdpPrefixes.contains sl && wfHeaders metaKeys hs then
